@@ -28,7 +28,13 @@ def shards(tier, seed):
             for i in range(parts):
                 out.append({"id": "%s.%d" % (c.name, i), "cmd": c.name, "part": i, "parts": parts,
                             "n": 250 if tier == "quick" else 12000, "small": tier == "quick"})
+    # the parameter lists that carry text (iSCSI names) once more in an interpreter whose locale is not UTF-8: what is sent is the
+    # UTF-8 encoding of the name wherever the program runs
+    out += [dict(s, id=s["id"] + "@C-locale", env=C_LOCALE) for s in out if s["cmd"] == "PersistentReserveOut"]
     return out
+
+
+C_LOCALE = {"LC_ALL": "C", "LANG": "C", "PYTHONCOERCECLOCALE": "0", "PYTHONUTF8": "0"}
 
 
 def modes(c, shard):
@@ -56,6 +62,13 @@ def modes(c, shard):
         for code in (0x00, 0x01, 0x02, 0x0B, 0x0C, 0x0D):
             for ns in (1, 2, 3):
                 yield ("counts", 2, ns, 0, code)
+        if g == "xcopy4":
+            # LID1 has a four-byte SEGMENT DESCRIPTOR LIST LENGTH and INLINE DATA LENGTH: lists and data beyond 65535 bytes
+            yield ("counts", 1, 2341, 0, 0x02)
+            yield ("counts", 2, 2400, 0)
+            yield ("counts", 1, 1, 70000)
+            if not shard["small"]:
+                yield ("counts", 3, 5000, 300)
     for _ in range(shard["n"]):
         yield "rand"
 
@@ -96,6 +109,14 @@ def judge(ctx, c, setname, path, a, exp, cmd):
 
 
 def run(shard, ctx):
+    if shard.get("env"):
+        import sys as _sys
+
+        ctx.add("filesystem_encodings", _sys.getfilesystemencoding())
+        if _sys.getfilesystemencoding().lower().replace("-", "") == "utf8":
+            ctx.inconclusive_because("shard %s was to run in a non-UTF-8 locale, the interpreter uses %s" % (shard["id"], _sys.getfilesystemencoding()))
+            return
+        ctx.count("shards_run_in_c_locale")
     import pyscsi.pyscsi.scsi_enum_command as E
 
     from vmon import harness
